@@ -485,6 +485,14 @@ class MPBFixedContext(SizedContext):
             return x < self.neg_maxval
         return x > self.pos_maxval
 
+    def _clamp_to(self, s: bool) -> Float:
+        """The value an overflowing operand with sign `s` is clamped to."""
+        if s and not self.neg_maxval.is_negative():
+            # `maxval(s=True)` raises when the format has no negative values;
+            # the bound on that side is zero, signed if the format can sign it
+            return Float(s=self.enable_neg_zero, ctx=self)
+        return self.maxval(s)
+
     def _overflow_to_infinity(self, s: bool):
         """Should overflows round to infinity (rather than MAX_VAL)?"""
         _, direction = self.rm.to_direction(s)
@@ -563,11 +571,9 @@ class MPBFixedContext(SizedContext):
                         else:
                             result = Float(x=self.inf_value, ctx=self)
                     else:
-                        result = self.smallest() if xr.s else self.largest()
+                        result = self._clamp_to(xr.s)
                 case OverflowMode.SATURATE:
-                    # `maxval(s=True)` raises when the format has no negative
-                    # values; the bound on that side is then zero
-                    result = self.smallest() if xr.s else self.largest()
+                    result = self._clamp_to(xr.s)
                 case OverflowMode.WRAP:
                     ord_abs = self._fmt._mp_fmt.to_ordinal(Float(x=xr)) - self._fmt._neg_maxval_ord
                     total_ord = self._fmt._pos_maxval_ord - self._fmt._neg_maxval_ord + 1
